@@ -74,6 +74,7 @@ def run_irq(run, for_c03=False, exe=None, cfgs=None, nrandom=None, tagp="", vali
                 shutil.copyfileobj(f, out)
             os.unlink(t)
     if validate:
+        payload_handover(run, "irq-edge-cover-handover", allp)
         check_trace(run, "irq-edge-cover", "TraceFibreIrq", "TraceFibreIrq.cfg", allp, loose=LOOSE)
     if not run.samples:
         sample_trace(run, allp, 8)
@@ -81,8 +82,18 @@ def run_irq(run, for_c03=False, exe=None, cfgs=None, nrandom=None, tagp="", vali
     gen = "Gen %d %d 1\n" % (run.seed * 10 + 1, n) + ("" if for_c03 else "Gen %d %d 0\n" % (run.seed * 10 + 2, n))
     tr = exec_script(run, exe, [], gen, run.path(tagp + "firq-random.ndjson"), "irq-random-schedules")
     if validate:
+        payload_handover(run, "irq-random-handover", tr)
         check_trace(run, "irq-random-schedules", "TraceFibreIrq", "TraceFibreIrq.cfg", tr, loose=LOOSE)
     return [allp, tr]
+
+
+def payload_handover(run, what, trace):
+    """The result-level second opinion forgives an implementation for touching the queues' words in another order; what it
+    cannot see is a slot read after it was given back (or written before it was owned) when no recorded schedule happens to
+    put the other party's access in between - the wake-up is then lost only in schedules that were not run.  Such an access is
+    a hand-over without happens-before, and that is checked on every recorded execution (the C07 machinery, TraceHB.tla):
+    a request or event that can be overwritten while it is being read IS a lost wake-up."""
+    check_trace(run, what, "TraceHB", "TraceHB.cfg", trace)
 
 
 def run_hb(run, hb_check, weaken_sites):
